@@ -74,13 +74,21 @@ def variant(rng, U, P, W, label):
             if list(c.knotvector).count(x) + nodes.count(x) < p + 1:
                 nodes.append(x)
         c.knot_insert(nodes)
+    if label in ("raised", "perturbed-raised"):
+        # the same knot values, one interior knot with a higher multiplicity (same degree, shared knot, different multiplicities)
+        inner = [x for x in knots[1:-1] if U.count(x) < p + 1]
+        if inner:
+            x = rng.choice(inner)
+            c.knot_insert([x] * rng.randint(1, p + 1 - U.count(x)))
+        else:
+            c.knot_insert([a + (b - a) * rng.choice(GRID)])
     if label in ("elevated", "refined+elevated"):
         c.degree_increase(rng.randint(1, 2))
     U2, P2, W2 = curve_state(c)
     P2 = [list(q) for q in P2]
     W2 = None if W2 is None else list(W2)
     if label.startswith("perturbed"):
-        which = rng.choice(["first", "last", "middle", "weight"])
+        which = rng.choice(["first", "last", "middle", "weight"]) if label != "perturbed-raised" else "last"
         eps = F(1, rng.choice([1000, 100, 3]))
         if which == "weight" and W2 is not None and len(W2) > 2:
             W2[rng.randrange(1, len(W2) - 1)] += eps     # an interior weight changes the function (an end weight alone may not)
@@ -110,12 +118,20 @@ def run(ctx):
     run_case(ctx, ser(dict(kind="pair", label="perturbed", A=dict(U=U, P=A["P"], W=[F(1), F(2)]), B=dict(U=U, P=A["P"], W=[F(1), F(3)]))))
     run_case(ctx, ser(dict(kind="noncurve", label="noncurve", A=A)))
     labels = ["refined", "elevated", "refined+elevated", "perturbed", "perturbed-refined", "scaled-weights", "const-weights",
+              "raised", "raised", "perturbed-raised",
               "unrelated", "interval", "same", "shared-weights", "shared-weights", "unrelated-rational"]
     for i in range(budget(ctx, 80, 1000)):
         label = rng.choice(labels)
         U, P, W = rand_curve(rng, pmax=3 if label in ("same", "perturbed", "unrelated") else 2, nintmax=2, force_zero=(i % 8 == 0))
         if W is not None and kv_info(U)[0] > 2:
             W = None
+        if label in ("raised", "perturbed-raised"):
+            # an interior knot whose multiplicity can still be raised; polynomial in two cases out of three
+            p_ = rng.randint(1, 3)
+            U = rand_kv(rng, p=p_, nint=rng.randint(1, 2), maxmult=max(1, p_ - 1))
+            n_ = kv_info(U)[1]
+            P = rand_points(rng, n_, rng.choice([1, 2]))
+            W = None if (i % 3 != 0 or p_ > 2) else rand_weights(rng, n_, "pos")
         if label == "shared-weights":
             # two rational curves with the *same* weight tuple and the same weighted numerator (a constant) on different knot
             # vectors with the same number of control points: the denominators differ, so the functions differ
